@@ -118,6 +118,11 @@ def gen_cases(ctx):
             yield seq
         yield [(bad, "x", None)]
         yield [(bad, "x", None), (bad, "y", None), ("typed_notification", "after", None)]
+    # more messages than the write stream buffers, some of them unserialisable
+    for L in ((101, 250) if ctx.tier == "quick" else (100, 101, 250, 1000)):
+        for bad_every in (0, 7):
+            yield [((BAD_SHAPES[k % len(BAD_SHAPES)] if bad_every and k % bad_every == 3 else GOOD_SHAPES[k % len(GOOD_SHAPES)]),
+                    PAYLOAD_STRINGS[k % len(PAYLOAD_STRINGS)], IDS[k % len(IDS)]) for k in range(L)]
     n = 1500 if ctx.tier == "quick" else 20000
     for _ in range(n):
         L = rng.randint(1, 8)
